@@ -13,6 +13,7 @@ def pat? : SExp → Option Pat
   | .atom "default" => some .default
   | .atom "space" => some .space
   | .atom "comma" => some .comma
+  | .atom "nonspace" => some .nonspace
   | _ => none
 
 def tokenizer? : SExp → Option Tokenizer
@@ -27,7 +28,33 @@ def at? : SExp → Option At
   | .atom "all" => some .all
   | _ => none
 
-def filter? : SExp → Option Filter
+def strPair? : SExp → Option (Str × Str)
+  | .list [a, b] => do some (← a.natList?, ← b.natList?)
+  | _ => none
+
+def charPair? : SExp → Option (Nat × Str)
+  | .list [a, b] => do some (← a.nat?, ← b.natList?)
+  | _ => none
+
+/-- a per-word table as a function; a word that is not in the table maps to a marker -/
+def tableFn (tbl : List (Str × Str)) (w : Str) : Str :=
+  match tbl.find? (·.1 == w) with
+  | some (_, o) => o
+  | none => [0, 63]
+
+/-- `str.translate` with a table of the characters that occur -/
+def translateFn (tbl : List (Nat × Str)) (w : Str) : Str :=
+  w.flatMap fun c => match tbl.find? (·.1 == c) with
+    | some (_, o) => o
+    | none => [c]
+
+partial def filter? : SExp → Option Filter
+  | .atom "reverse" => some (.mapText List.reverse)
+  | .list [.atom "mapchars", tbl] => do some (.mapText (translateFn (← SExp.listOf? charPair? tbl)))
+  | .list [.atom "maptable", tbl] => do some (.mapText (tableFn (← SExp.listOf? strPair? tbl)))
+  | .list [.atom "stem", tbl, ig] => do
+    some (.stem (tableFn (← SExp.listOf? strPair? tbl)) (← SExp.listOf? SExp.natList? ig))
+  | .list [.atom "multi", a, b] => do some (.multi (← filter? a) (← filter? b))
   | .atom "lowercase" => some .lowercase
   | .atom "strip" => some .strip
   | .atom "pass" => some .pass
